@@ -33,6 +33,11 @@ def run(ctx):
     r06_2(ctx, rep, roles)
     r06_3(ctx, rep, roles)
     r06_4(ctx, rep, roles)
+    # which writes are no-ops (same value AND same status) is part of the local model too: a TTL-marked key that is set again
+    # with the same value must become a plain Set entry
+    from . import c04
+    c04.r04_1(ctx, rep, roles)
+    ctx.report.rules[-1].id = "R06.5(R04.1)"
 
 
 def variant_table(fx, fn, self_name="self"):
